@@ -53,7 +53,7 @@ type ardSim struct {
 	mark     bool
 	mycall   string
 	// behaviour
-	faultNext  int  // answer the next n data frames with CRCFAULT
+	faultNext  int // answer the next n data frames with CRCFAULT
 	refuseDial bool
 	buffered   int
 	done       chan struct{}
@@ -93,9 +93,13 @@ func (s *ardSim) sendData(b []byte) {
 	s.data.Write(b)
 	s.wmu.Unlock()
 }
-func (s *ardSim) say(text string)             { s.sendCtrl(s.frameCmd(text)) }
-func (s *ardSim) arq(p []byte)                { s.sendData(s.frameData("ARQ", p)) }
-func (s *ardSim) bad(f string, a ...interface{}) { s.mu.Lock(); s.badHost = append(s.badHost, fmt.Sprintf(f, a...)); s.mu.Unlock() }
+func (s *ardSim) say(text string) { s.sendCtrl(s.frameCmd(text)) }
+func (s *ardSim) arq(p []byte)    { s.sendData(s.frameData("ARQ", p)) }
+func (s *ardSim) bad(f string, a ...interface{}) {
+	s.mu.Lock()
+	s.badHost = append(s.badHost, fmt.Sprintf(f, a...))
+	s.mu.Unlock()
+}
 
 func (s *ardSim) onCommand(line string) {
 	s.mu.Lock()
@@ -230,8 +234,13 @@ type pttLog struct {
 	calls []bool
 }
 
-func (p *pttLog) SetPTT(on bool) error { p.mu.Lock(); p.calls = append(p.calls, on); p.mu.Unlock(); return nil }
-func (p *pttLog) get() []bool          { p.mu.Lock(); defer p.mu.Unlock(); return append([]bool{}, p.calls...) }
+func (p *pttLog) SetPTT(on bool) error {
+	p.mu.Lock()
+	p.calls = append(p.calls, on)
+	p.mu.Unlock()
+	return nil
+}
+func (p *pttLog) get() []bool { p.mu.Lock(); defer p.mu.Unlock(); return append([]bool{}, p.calls...) }
 
 type rwc struct{ net.Conn }
 
